@@ -58,6 +58,7 @@ const SYNTAX_VARIANTS = [
   { attrSep: '\n  ' },
   { newlineBetweenNodes: true },
   { exprPad: '\n' },
+  { attrSep: '\r\n  ', exprPad: '\r\n' },
 ]
 
 class Printer {
@@ -77,8 +78,9 @@ class Printer {
   /** emit a token and record where it starts / ends */
   tok(kind, t, extra) {
     const start = [this.line, this.col]
+    const off = this.out.length
     this.raw(t)
-    const rec = Object.assign({ kind, text: t, start, end: [this.line, this.col] }, extra || {})
+    const rec = Object.assign({ kind, text: t, start, end: [this.line, this.col], off, offEnd: this.out.length }, extra || {})
     this.tokens.push(rec)
     return rec
   }
@@ -149,12 +151,13 @@ class Printer {
   attr(nameText, v, extra) {
     this.raw(this.s.attrSep)
     const name = this.tok('attr-name', nameText, extra)
-    if (v === undefined) return name
+    if (v === undefined) { this.tokens.push({ kind: 'attr-end', text: '', start: [this.line, this.col], end: [this.line, this.col], off: this.out.length, offEnd: this.out.length, name }); return name }
     this.raw('=')
     const q = this.quoteFor(v)
     this.raw(q)
     this.value(v, q, extra && extra.objectInner)
     this.raw(q)
+    this.tokens.push({ kind: 'attr-end', text: '', start: [this.line, this.col], end: [this.line, this.col], off: this.out.length, offEnd: this.out.length, name })
     return name
   }
   controlAttrs(n) {
@@ -186,15 +189,15 @@ class Printer {
   }
   open(tag, n, attrsFn, children) {
     const startTok = this.tok('tag-open', '<')
-    const nameTok = this.tok('tag-name', tag)
+    const nameTok = this.tok('tag-name', tag, { node: n })
     attrsFn()
     const hasChildren = children && children.length > 0
     if (!hasChildren && this.s.selfClose) {
-      this.raw(this.s.attrSep === ' ' ? '' : '\n')
-      this.tok('self-close', '/>')
+      this.raw(this.s.attrSep === ' ' ? '' : this.s.attrSep.replace(/ +$/, ''))
+      this.tok('self-close', '/>', { tag, node: n })
       return { startTok, nameTok }
     }
-    if (this.s.attrSep !== ' ') this.raw('\n')
+    if (this.s.attrSep !== ' ') this.raw(this.s.attrSep.replace(/ +$/, ''))
     this.tok('tag-end', '>')
     if (hasChildren) this.nodes(children)
     this.tok('close-open', '</')
